@@ -40,6 +40,11 @@ theorem gen_qrIndices_distinct : ∀ t ∈ Gen.C09.qrIndices,
     t.1 ≠ t.2.1 ∧ t.1 ≠ t.2.2.1 ∧ t.1 ≠ t.2.2.2 ∧ t.2.1 ≠ t.2.2.1 ∧ t.2.1 ≠ t.2.2.2 ∧ t.2.2.1 ≠ t.2.2.2 ∧
     t.1 < 16 ∧ t.2.1 < 16 ∧ t.2.2.1 < 16 ∧ t.2.2.2 < 16 := by decide
 
+/-- (T) the block counter of `ChaCha20::apply` advances as the model's `applyLoop` says: the block function gets the
+`std::uint32_t` counter parameter itself and that 32-bit variable is incremented once per block (so block `j` uses
+`(counter + j) mod 2^32`, not an index of another width added to the initial counter). -/
+theorem gen_counterAdvance : Gen.C09.counterMode = 0 ∧ Gen.C09.counterWidth = 32 := by decide
+
 /-- 64-byte blocks -/
 theorem gen_kBlockSize : Gen.C09.kBlockSize = 64 := by decide
 
